@@ -77,8 +77,13 @@ pub enum Event {
     Flush,
     /// raw read on descriptor 0: asked, result
     RawR { asked: usize, res: String },
-    /// one read_line call
+    /// one read_line call - or, for code that reads stdin through fill_buf / consume / read, one
+    /// input line's worth of consumed bytes (synthesised by the console, see `Consumed`)
     Line { who: Who, res: LineRes },
+    /// BufRead::fill_buf on stdin: bytes offered ("eof", "err:<kind>" or a count)
+    Fill { who: Who, got: String },
+    /// BufRead::consume on stdin: the bytes taken
+    Consumed { who: Who, bytes: crate::scenario::Bytes },
     /// top of a run-loop iteration; mem = bytes that differ from the previous probe
     /// (from all-zero memory for the first probe)
     Probe { idx: usize, code: String, regs: [u16; 14], mem: Vec<(u32, u8)> },
@@ -205,6 +210,17 @@ impl History {
                         LineRes::Eof => mix(b"e"),
                         LineRes::Err(k) => mix(k.as_bytes()),
                     }
+                }
+                Event::Fill { who, got } => {
+                    mix(b"f");
+                    mix(&[*who as u8]);
+                    if got == "eof" || got.starts_with("err") {
+                        mix(got.as_bytes());
+                    }
+                }
+                Event::Consumed { who, .. } => {
+                    mix(b"c");
+                    mix(&[*who as u8]);
                 }
                 Event::Probe { code, .. } => {
                     mix(b"P");
